@@ -1,9 +1,10 @@
 SPECIFICATION TraceSpec
-CONSTANTS N = 86400 MaxSteps = 1000 InvertStartBySecTruncation = FALSE CaptureAtJoinEpoch = FALSE CacheIgnoresEpoch = FALSE MaxJoinSteps = 1000
+CONSTANTS N = 86400 MaxSteps = 1000 InvertStartBySecTruncation = FALSE CaptureAtJoinEpoch = FALSE CacheIgnoresEpoch = FALSE LocalTimeEpoch = FALSE MaxJoinSteps = 1000
 CONSTANT Lons <- LonsAll
 CONSTANT Theta0s <- ThetasAll
 CONSTANT StartSecs <- Secs60
 CONSTANT PriorAngles <- OnePrior
+CONSTANT Zones <- ZonesUtc
 CONSTANT Plans <- NoPlan
 CONSTANT Dts <- DtsQuick
 INVARIANT TrStartInversionExact
